@@ -232,18 +232,21 @@ JS_ALPHA = 'a"\\\né'
 J = Union[int, bool, None, str]
 
 
+_JSON_T = ENV.from_string("{{ x | json }}")
+
+
 @cond(
-    pre=["not isinstance(x, str) or (len(x) <= 2 and in_alpha(x, JS_ALPHA))", "not isinstance(x, int) or -1000 <= x <= 1000"],
+    pre=["not isinstance(x, str) or (len(x) <= 2 and in_alpha(x, JS_ALPHA))", "not isinstance(x, int) or -30 <= x <= 30"],
     timeout=200,
     shard={"wrap": [0, 1, 2]},
     covers="json.loads(render('{{ x | json }}')) == x for scalars, one-element lists and one-key hashes",
-    bounds="x: int -1000..1000 | bool | None | str over {a \" \\ LF e-acute} len <= 2; wrapped as x, [x], {'k': x}",
+    bounds="x: int -30..30 (the C encoder realizes every value) | bool | None | str over {a \" \\ LF e-acute} len <= 2; wrapped as x, [x], {'k': x}",
     grid=lambda: [(0, 'a"'), (1, None), (2, "\\\n"), (0, True), (1, 10**30), (2, "é")],
 )
 def k_json_rt(wrap: int, x: J) -> bool:
     val = [x, [x], {"k": x}][wrap]
     try:
-        out = ENV.from_string("{{ x | json }}").render(x=val)
+        out = _JSON_T.render(x=val)
     except LiquidError:
         return False
     try:
